@@ -177,6 +177,7 @@ VerifyFails(e) ==
   \cup (IF On("C04") THEN F(P_C04(ck, pt, cb, sok, now, ops, e.ret), "C04.claims") ELSE {})
   \cup (IF On("C05") /\ e.tok.src = "slot" THEN F(ref = "accept" => e.ret = 0, "C05.verify") \cup C05ReadFails(e) ELSE {})
   \cup (IF On("C06") THEN F(P_C06(pt, e.ret), "C06.reject") ELSE {})
+  \cup (IF On("C11") THEN F(P_FullV(ref, e.ret), "C11.token") ELSE {})       \* the codec as the token parser uses it
   \cup (IF On("C09") THEN F(P_C09(ck, pt, cb, sok, now, ops, e.ret), "C09.verify") ELSE {})
   \cup (IF On("C13") /\ Has(e, "fresh") THEN F((e.ret = 0) <=> (e.fresh.ret = 0), "C13.verify") ELSE {})
   \cup (IF On("C14") THEN F(P_C14v(e.ret, e.err, e.msg), "C14.verify") ELSE {})
@@ -245,8 +246,8 @@ ConfigFails(e) ==
               THEN F((e.ret = 0) <=> (SetCbCtxRet(IF e.e = "CSetCb" THEN checkers[e.c] ELSE builders[e.b]) = 0), Prop \o ".setcbctx")
               ELSE F(e.ret = 0, Prop \o ".setcb")
     [] e.e \in {"CErrClear", "BErrClear"} -> IF On("C14") THEN F(e.err = 0 /\ e.msg = 0, "C14.errclear") ELSE {}
-    [] e.e = "Ops" -> IF On("C12") THEN F(e.ret = OpsSetRet(e.name) /\ e.cur = OpsAfterSet(ops, e.name), "C12.setops") ELSE {}
-    [] e.e = "OpsT" -> IF On("C12") THEN F(e.ret = OpsSetTRet(e.id) /\ e.cur = OpsAfterSetT(ops, e.id), "C12.setopst") ELSE {}
+    [] e.e = "Ops" -> IF On("C12") THEN F(e.ret = OpsSetRet(e.name) /\ e.cur = OpsAfterSet(ops, e.name) /\ e.jwk = 1, "C12.setops") ELSE {}
+    [] e.e = "OpsT" -> IF On("C12") THEN F(e.ret = OpsSetTRet(e.id) /\ e.cur = OpsAfterSetT(ops, e.id) /\ e.jwk = 1, "C12.setopst") ELSE {}
     [] e.e = "OpsEnv" -> IF On("C12") THEN F(e.cur = (IF e.env \in Providers THEN e.env ELSE "openssl"), "C12.env") ELSE {}
     [] e.e = "BNew" -> IF On("C15") THEN F(e.ok = 1 => (e.hdr = <<>> /\ e.clm = <<>>), "C15.new") ELSE {}
     [] OTHER -> {}
